@@ -277,7 +277,7 @@ def main(ck):
     except (OSError, ValueError, KeyError):
         pass
     ck.coq_audit(["C01"])
-    ok = ck.coq_build(["C01/Proofs.vo", "C01/Proofs2.vo", "C01/Proofs3.vo", "C01/Proofs4.vo", "C01/Proofs5.vo", "C01/ProofsC.vo", "C01/Corr.vo"])
+    ok = ck.coq_build(["C01/Proofs.vo", "C01/Proofs2.vo", "C01/Proofs3.vo", "C01/Proofs4.vo", "C01/Proofs5.vo", "C01/ProofsC.vo", "C01/ProofsF.vo", "C01/Corr.vo"])
     if ok:
         ck.coq_props(["C01/Props.v", "C01/Refuted.v"])
     binp = ck.go_build("./cmd/c01", "c01")
